@@ -55,9 +55,10 @@ def chanPointOf : Chan.PC → Option String
   | .dLock _ => some "chan.doSlow.enter"
   | .dRead _ => some "chan.doSlow.locked"
   | .dStore _ => some "chan.doSlow.store"
+  | .dF _ => some "chan.doSlow.init"
   | .cClose => some "chan.Close.close"
   | .cGet _ => some "chan.Get.read"
-  -- no point: dF (f()), dUnlock (deferred unlock), cSend/cRecv/cRecvW/cFull/cFullRecv (channel operations), results
+  -- no point: dUnlock (deferred unlock), cSend/cRecv/cRecvW/cFull/cFullRecv (channel operations), results
   | _ => none
 
 /-! ### a generic scheduler over either model -/
